@@ -36,6 +36,42 @@ theorem dup_wire_rejected (g : G) (p : Nat) (n : String) (b : Bool) (w : Nat) (h
     simp only [wireOf, hp, Option.bind_some] at h
     simp [dhas, h]
 
+theorem forEach_newWire_clash (p : Nat) (l : List String) (g : G) (nm : String) (w : Nat) (hm : nm ∈ l)
+    (h : wireOf g p nm = some w) : ∃ e, (forEach g l (fun g x => newWire g p x false)).2 = .error e := by
+  induction l generalizing g with
+  | nil => cases hm
+  | cons a t ih =>
+    unfold forEach
+    by_cases e : a = nm
+    · subst e
+      have := dup_wire_rejected g p a false w h
+      simp only [step] at this
+      rw [this]; exact ⟨_, rfl⟩
+    · have hm' : nm ∈ t := by
+        rcases List.mem_cons.1 hm with h' | h'
+        · exact absurd h'.symm e
+        · exact h'
+      have hk := newWire_keepsW g p a false p nm w (by simp) h
+      rcases hfa : newWire g p a false with ⟨g1, r⟩
+      rw [hfa] at hk
+      cases r with
+      | ok u => exact ih g1 hm' hk
+      | error e' => exact ⟨e', rfl⟩
+
+/-- the array helper `Logic.wires(name, num, width)`: if ANY element name `name_i` (i < num) is already a wire of the
+    parent the call raises — whatever helper creates a wire, a name clash is rejected — and the earlier wire is still the
+    one found under that name (elements with a smaller index were created before the raise, as in the Python loop;
+    no existing registration changes: `source_stable`, `child_stable`, `wire_entry_stable` cover this op like any other) -/
+theorem wires_clash_rejected (g : G) (p : Nat) (name : String) (num i : Nat) (w : Nat) (hi : i < num)
+    (h : wireOf g p (name ++ "_" ++ toString i) = some w) :
+    (∃ e, (step g (.wires p name num)).2 = .error e) ∧
+    wireOf (step g (.wires p name num)).1 p (name ++ "_" ++ toString i) = some w := by
+  refine ⟨?_, step_keepsW g (.wires p name num) p _ w (by simp [Op.moved]) h⟩
+  simp only [step, newWires]
+  apply forEach_newWire_clash p _ g (name ++ "_" ++ toString i) w _ h
+  simp only [arrayNames, List.mem_map, List.mem_range]
+  exact ⟨i, hi, rfl⟩
+
 /-- a second driver on an ordinary wire (through `addOut` or `addInOut` of a primitive): raises, graph untouched,
     in particular the earlier driver is still `wire.getSource()` -/
 theorem second_driver_rejected (g : G) (o : Nat) (n : String) (w : Nat) (ob : Obj) (wr : Wire) (s : Nat)
@@ -195,6 +231,16 @@ theorem renameOld_retry_evicts_earlier :
     let g1 := (renameOld gWit 1 "a").1
     isOk (renameOld g1 1 "c").2 = true ∧ wireOf g1 0 "a" = some 0 ∧
     wireOf (renameOld g1 1 "c").1 0 "a" = none ∧ wireOf (renameOld g1 1 "c").1 0 "c" = some 1 := by
+  decide
+
+/-- `sys.wire('d_1'); sys.wires('d', 3)` raises at `d_1`, `d_0` was created, `d_1` is still the first wire;
+    on a free prefix the helper creates the whole array -/
+example :
+    let g := run {} [.newLogic none "top" false, .wire 0 "d_1" false]
+    (step g (.wires 0 "d" 3)).2 = .error .dupWire ∧ wireOf (step g (.wires 0 "d" 3)).1 0 "d_1" = some 0 ∧
+    wireOf (step g (.wires 0 "d" 3)).1 0 "d_0" = some 1 ∧ wireOf (step g (.wires 0 "d" 3)).1 0 "d_2" = none ∧
+    (step g (.wires 0 "e" 3)).2 = .ok () ∧ wireOf (step g (.wires 0 "e" 3)).1 0 "e_2" = some 3 ∧
+    (step (step g (.wires 0 "e" 3)).1 (.wires 0 "e" 3)).2 = .error .dupWire := by
   decide
 
 /-- non-vacuity of the rejection theorems: each conflict on a concrete history -/
